@@ -104,9 +104,9 @@ structure LinearState (pre rest : List MFile) (revs : List Revision) : Prop wher
   nock : ∀ f ∈ pre ++ rest, f.checkpoint = false
   sorted : SortedV (pre ++ rest)
   shape :
-    (revs.map (·.version) = pre.map (·.version) ∧ ∀ r ∈ revs, r.applied = r.total) ∨
+    (revs.map (·.version) = pre.map (·.version) ∧ ∀ r ∈ revs, r.partially = false) ∨
     (∃ m post rs rp, rest = m :: post ∧ revs = rs ++ [rp] ∧ rs.map (·.version) = pre.map (·.version) ∧
-      (∀ r ∈ rs, r.applied = r.total) ∧ rp.version = m.version ∧ rp.applied ≠ rp.total)
+      (∀ r ∈ rs, r.partially = false) ∧ rp.version = m.version ∧ rp.partially = true)
 
 theorem sorted_lt_of_append {pre rest : List MFile} (hs : SortedV (pre ++ rest)) :
     ∀ a ∈ pre, ∀ b ∈ rest, a.version < b.version := by
@@ -170,7 +170,7 @@ theorem pending_linear (cfg : Cfg) (pre rest : List MFile) (revs : List Revision
         cases revs with
         | nil => simp at hrl
         | cons a l => exact ⟨a, rfl⟩
-      have hla : last.applied = last.total := hcomp last (List.mem_of_getLast? hrl)
+      have hla : last.partially = false := hcomp last (List.mem_of_getLast? hrl)
       -- pre = pre' ++ [ml], ml.version = last.version
       have hpne : pre ≠ [] := by
         intro h; subst h
@@ -217,12 +217,12 @@ theorem pending_linear (cfg : Cfg) (pre rest : List MFile) (revs : List Revision
       have hplen : pre.length = pre'.length + 1 := by rw [hpre]; simp
       have hnorm : normal cfg (pre ++ rest) revs r0 last = finish rest := by
         unfold normal
-        simp only [hla, bne_self_eq_false, Bool.false_eq_true, if_false, hidx, beq_self_eq_true, if_true]
+        simp only [hla, Bool.false_eq_true, if_false, hidx]
         rw [← hplen, hdrop']
         rcases hwin with hw | hw <;> rw [hw]
       refine ⟨?_, ?_⟩
       · simp [pending, hrl, hr0, hla, hskip, hne]
-      · simp only [pending, hrl, hr0, hskip, hne, hla, bne_self_eq_false, Bool.false_and,
+      · simp only [pending, hrl, hr0, hskip, hne, hla, Bool.false_and,
           Bool.false_eq_true, if_false, Bool.not_false, if_true, hnorm, finish]
         cases rest <;> simp
   · -- the first file of `rest` is partially applied
@@ -284,17 +284,44 @@ theorem pending_linear (cfg : Cfg) (pre rest : List MFile) (revs : List Revision
     have hwin := window_empty cfg pre (m :: post) revs r0 hsr hall
     have hnorm : normal cfg (pre ++ m :: post) revs r0 rp = finish (m :: post) := by
       unfold normal
-      have hpa : (rp.applied != rp.total) = true := by simpa using hrpa
+      have hpa : rp.partially = true := hrpa
       have hfn : (fun (f : MFile) => f.version == rp.version) = (fun f => decide (f.version = rp.version)) := by
         funext f; rfl
-      have hne' : ¬ (rp.applied == rp.total) = true := by simpa using hrpa
-      simp only [hpa, if_true, hfn, hidx, hne', if_false, Bool.false_eq_true, hdrop]
+      simp only [hpa, if_true, hfn, hidx, hdrop]
       rcases hwin with hw | hw <;> rw [hw]
-    have hpa : (rp.applied != rp.total) = true := by simpa using hrpa
+    have hpa : rp.partially = true := hrpa
     have hm : m.checkpoint = false := st.nock m (by simp)
     refine ⟨?_, ?_⟩
     · simp [pending, hrl, hr0, hpa, hskip, hne, hbs, hm]
     · simp [pending, hrl, hr0, hskip, hne, hpa, hbs, hm, hnorm, finish]
+
+
+/-! ### `migrate set`: a resolved revision counts as applied -/
+
+theorem complete_not_partially (r : Revision) (h : r.applied = r.total) : r.partially = false := by
+  simp [Revision.partially, h]
+
+theorem resolved_not_partially (r : Revision) (h : r.resolved = true) : r.partially = false := by
+  simp [Revision.partially, h]
+
+/-- **set_agrees**: after `atlas migrate set v` on a linear directory – every file up to `v` has a
+revision that is completely applied *or* marked resolved (what `migrateSetRun` writes for a partially
+applied / failed `v`: `Execute|Resolved`, and `Resolved` for files it records itself) – `Pending`
+returns exactly the files after `v`: the version `set` reports as current is not run or resumed again. -/
+theorem set_agrees (cfg : Cfg) (pre rest : List MFile) (revs : List Revision)
+    (hb : cfg.baseline = "") (hc : cfg.clean = true)
+    (nock : ∀ f ∈ pre ++ rest, f.checkpoint = false) (sorted : SortedV (pre ++ rest))
+    (hv : revs.map (·.version) = pre.map (·.version))
+    (hdone : ∀ r ∈ revs, r.applied = r.total ∨ r.resolved = true) :
+    (pending cfg (pre ++ rest) revs).out = (if rest = [] then .error .noPending else .ok rest) :=
+  (pending_linear cfg pre rest revs hb hc
+    ⟨nock, sorted, .inl ⟨hv, fun r hr => (hdone r hr).elim (complete_not_partially r) (resolved_not_partially r)⟩⟩).2
+
+/-- non-vacuity: version 1 failed after one of two statements and was then `set`; version 2 is what runs. -/
+example :
+    (match (pending {} [⟨"1_a.sql", "1", "a", [], false, ""⟩, ⟨"2_b.sql", "2", "b", [], false, ""⟩]
+      [{ version := "1", typ := 6, applied := 1, total := 2 }]).out with
+     | .ok l => l.map (·.version) | .error _ => []) = ["2"] := by decide
 
 /-! ### the out-of-order window, the execution-order clauses, the baseline -/
 
@@ -345,7 +372,7 @@ theorem out_of_order_exact (cfg : Cfg) (migrations : List MFile) (revs : List Re
 `linear` rejects, `linear-skip` ignores them, `non-linear` runs them first. -/
 theorem order_clauses (cfg : Cfg) (migrations : List MFile) (revs : List Revision) (r0 last : Revision)
     (idx0 : Nat) (s : MFile) (ss : List MFile)
-    (hcomplete : last.applied = last.total)
+    (hcomplete : last.partially = false)
     (hidx : lastIndex (fun f => decide (f.version ≤ last.version)) migrations = some idx0)
     (hskip : outOfOrder cfg migrations revs r0 (idx0 + 1) = some (s :: ss)) :
     normal cfg migrations revs r0 last =
@@ -354,8 +381,7 @@ theorem order_clauses (cfg : Cfg) (migrations : List MFile) (revs : List Revisio
       | .linear => .error (.nonLinear (s :: ss) (migrations.drop (idx0 + 1)))
       | .linearSkip => finish (migrations.drop (idx0 + 1)) := by
   unfold normal
-  have hp : (last.total != last.total) = false := by simp
-  simp only [hcomplete, hp, Bool.false_eq_true, if_false, hidx, beq_self_eq_true, if_true, hskip]
+  simp only [hcomplete, Bool.false_eq_true, if_false, hidx, hskip]
   cases cfg.order <;> rfl
 
 /-- **baseline_skips_le**: a first run with `--baseline v` writes the baseline revision for `v` and
